@@ -37,14 +37,20 @@ import (
 )
 
 func main() {
-	vh.Main(vh.Commands{"replay": c06Replay, "random": c06Random, "fdlimit": c06Fdlimit})
+	vh.Main(vh.Commands{"replay": c06Replay, "random": c06Random, "fdlimit": c06Fdlimit, "big": c06Big})
 }
 
 type Node struct {
 	P    []int  `json:"p"` // path as the bytes of "d/e/f"
 	K    string `json:"k"`
 	Data []int  `json:"data"`
-	Tr   string `json:"tr"` // "reg" | "pipe"
+	Tr   string `json:"tr"`  // "reg" | "pipe"
+	Mem  []int  `json:"mem"` // "mgz": plain sizes of the gzip members
+}
+
+type End struct {
+	Exit int    `json:"exit"`
+	Msg  string `json:"msg"`
 }
 
 type Stdin struct {
@@ -72,6 +78,10 @@ type Expect struct {
 	Parse   int       `json:"parse"`
 	Partial []Partial `json:"partial"`
 	MaxOpen int       `json:"maxopen"`
+	// non-regular entries passed by a -R walk: rows under these names are not judged, each may add a read error
+	Free  [][]int `json:"free"`
+	Nfree int     `json:"nfree"`
+	Ends  []End   `json:"ends"` // the (exit status, final message) pairs the specification allows
 }
 
 type Scenario struct {
@@ -136,6 +146,14 @@ func fileBytes(n *Node, cutSel int) []byte {
 		return data
 	case "gz":
 		return gzBytes(data)
+	case "mgz": // cat a.gz b.gz ...: one gzip member per entry of Mem
+		var out []byte
+		at := 0
+		for _, m := range n.Mem {
+			out = append(out, gzBytes(data[at:at+m])...)
+			at += m
+		}
+		return out
 	case "truncgz":
 		z := gzBytes(data)
 		body := len(z) - 18 // deflate stream
@@ -199,6 +217,12 @@ func materialise(root string, sc *Scenario) error {
 			}
 			continue
 		}
+		if special, err := makeSpecial(root, p, n.K); special {
+			if err != nil {
+				return err
+			}
+			continue
+		}
 		if err := os.WriteFile(p, fileBytes(n, sc.CutSel), 0o644); err != nil {
 			return err
 		}
@@ -206,8 +230,39 @@ func materialise(root string, sc *Scenario) error {
 	return nil
 }
 
+// makeSpecial creates a directory entry that is neither a directory nor a regular file (nor a FIFO)
+func makeSpecial(root, p, kind string) (bool, error) {
+	switch kind {
+	case "sock":
+		return true, syscall.Mknod(p, syscall.S_IFSOCK|0o644, 0)
+	case "dev":
+		// the null device; where device nodes cannot be created, another entry nobody can open
+		if err := syscall.Mknod(p, syscall.S_IFCHR|0o644, 1<<8|3); err != nil {
+			return true, syscall.Mknod(p, syscall.S_IFSOCK|0o644, 0)
+		}
+		return true, nil
+	case "symfile":
+		t := root + ".symfile"
+		if err := os.WriteFile(t, []byte("sym 1\n"), 0o644); err != nil {
+			return true, err
+		}
+		return true, os.Symlink(t, p)
+	case "symdir":
+		t := root + ".symdir"
+		if err := os.MkdirAll(t, 0o755); err != nil {
+			return true, err
+		}
+		return true, os.Symlink(t, p)
+	case "dangling":
+		return true, os.Symlink(root+".nothing", p)
+	}
+	return false, nil
+}
+
 func cleanup(root string, sc *Scenario) {
 	os.RemoveAll(root)
+	os.Remove(root + ".symfile")
+	os.Remove(root + ".symdir")
 	for i := range sc.Tree {
 		if isAbsNode(&sc.Tree[i]) {
 			os.Remove(extFile(root, &sc.Tree[i]))
@@ -502,7 +557,11 @@ func record(t int, sc *Scenario, obs *Obs, lib *LibObs) vh.M {
 		if tr == "" {
 			tr = "reg"
 		}
-		tree = append(tree, vh.M{"p": comps(n.P), "k": n.K, "data": d, "tr": tr})
+		mem := n.Mem
+		if mem == nil {
+			mem = []int{}
+		}
+		tree = append(tree, vh.M{"p": comps(n.P), "k": n.K, "data": d, "tr": tr, "mem": mem})
 	}
 	args := make([][][]int, 0, len(sc.Argv))
 	for _, a := range sc.Argv {
@@ -697,6 +756,9 @@ func compare(t int, sc *Scenario, r *result) []Mismatch {
 	for _, p := range exp.Partial {
 		partial[string(vh.FromInts(p.Name))+":"] = true
 	}
+	for _, f := range exp.Free { // rows of non-regular entries below a -R directory are not judged
+		partial[string(vh.FromInts(f))+":"] = true
+	}
 	strip := func(m map[string]int) map[string]int {
 		if len(partial) == 0 {
 			return m
@@ -719,18 +781,32 @@ func compare(t int, sc *Scenario, r *result) []Mismatch {
 	if d := diffMaps(em, strip(rowsMap(obs.Rows))); d != "" {
 		add("rows", d)
 	}
-	if obs.Exit != exp.Exit {
-		add("exit", fmt.Sprintf("exit status: spec %d, got %d", exp.Exit, obs.Exit))
-	}
-	if obs.Msg != exp.Msg {
-		add("msg", fmt.Sprintf("final message: spec %q, got %q", exp.Msg, obs.Msg))
+	if exp.Nfree == 0 {
+		if obs.Exit != exp.Exit {
+			add("exit", fmt.Sprintf("exit status: spec %d, got %d", exp.Exit, obs.Exit))
+		}
+		if obs.Msg != exp.Msg {
+			add("msg", fmt.Sprintf("final message: spec %q, got %q", exp.Msg, obs.Msg))
+		}
+	} else {
+		ok := false
+		for _, e := range exp.Ends {
+			ok = ok || (e.Exit == obs.Exit && e.Msg == obs.Msg)
+		}
+		if !ok {
+			add("exit", fmt.Sprintf("exit status / final message: spec one of %v, got %d %q", exp.Ends, obs.Exit, obs.Msg))
+		}
 	}
 	// every failing input is reported on stderr; the wording of a report is not part of the property, so [Log] lines the
 	// driver does not recognise may stand for reports (never more recognised reports than failures, never fewer lines than failures)
-	if obs.Nlog > exp.Nerr || obs.Nlog+obs.Nunk < exp.Nerr {
+	if obs.Nlog > exp.Nerr+exp.Nfree || obs.Nlog+obs.Nunk < exp.Nerr {
 		add("nlog", fmt.Sprintf("reported read errors: spec %d, got %d (+%d other [Log] lines)", exp.Nerr, obs.Nlog, obs.Nunk))
 	}
-	if sc.Cmd == "filter" && len(exp.Partial) == 0 && (obs.Matched != exp.Matched || obs.Read != exp.Read) {
+	if sc.Cmd == "filter" && len(exp.Partial) == 0 && exp.Nfree > 0 {
+		if obs.Matched < exp.Matched || obs.Read < exp.Read {
+			add("summary", fmt.Sprintf("summary: spec matched >= %d / read >= %d, got %d / %d", exp.Matched, exp.Read, obs.Matched, obs.Read))
+		}
+	} else if sc.Cmd == "filter" && len(exp.Partial) == 0 && (obs.Matched != exp.Matched || obs.Read != exp.Read) {
 		add("summary", fmt.Sprintf("summary: spec matched %d / read %d, got %d / %d", exp.Matched, exp.Read, obs.Matched, obs.Read))
 	}
 	if obs.Peak > exp.MaxOpen {
@@ -740,7 +816,7 @@ func compare(t int, sc *Scenario, r *result) []Mismatch {
 		if r.lib.Hang {
 			add("lib-hang", "OpenFilesToChan did not close its channel within 25 s")
 		} else {
-			if r.lib.Nerr != exp.Nerr {
+			if r.lib.Nerr < exp.Nerr || r.lib.Nerr > exp.Nerr+exp.Nfree {
 				add("lib-nerr", fmt.Sprintf("Batcher.ReadErrors(): spec %d, got %d", exp.Nerr, r.lib.Nerr))
 			}
 			if r.lib.Peak > exp.MaxOpen {
@@ -954,8 +1030,10 @@ func randScenario(rng *rand.Rand) *Scenario {
 		if sc.Gz {
 			switch x := rng.Intn(100); {
 			case x < 50:
-			case x < 78:
+			case x < 68:
 				n.K = "gz"
+			case x < 78:
+				n.K, n.Mem = "mgz", randCuts(rng, len(n.Data))
 			case x < 85:
 				n.K = "crcgz"
 			case x < 92:
@@ -1042,7 +1120,117 @@ func randScenario(rng *rand.Rand) *Scenario {
 		sc.Argv = append(sc.Argv, vh.BS(a))
 	}
 	addSpecialInputs(rng, sc, &truncLeft)
+	addWalkEntries(rng, sc, dirPaths(sc))
 	return sc
+}
+
+// randCuts: plain sizes of 2..4 gzip members making up n bytes (members may be empty, cuts fall anywhere)
+func randCuts(rng *rand.Rand, n int) []int {
+	k := 2 + rng.Intn(3)
+	at := make([]int, k-1)
+	for i := range at {
+		at[i] = rng.Intn(n + 1)
+	}
+	sort.Ints(at)
+	cuts := make([]int, 0, k)
+	prev := 0
+	for _, a := range at {
+		cuts = append(cuts, a-prev)
+		prev = a
+	}
+	return append(cuts, n-prev)
+}
+
+func cutsFor(rng *rand.Rand, k string, d []int) []int {
+	if k == "mgz" {
+		return randCuts(rng, len(d))
+	}
+	return nil
+}
+
+func dirPaths(sc *Scenario) []string {
+	var out []string
+	for _, n := range sc.Tree {
+		if n.K == "dir" {
+			out = append(out, string(vh.FromInts(n.P)))
+		}
+	}
+	return out
+}
+
+// argHits: does the glob / path argument a (component-wise * ? matching, as filepath.Glob) name path p
+func argHits(a, p string) bool {
+	ac, pc := strings.Split(a, "/"), strings.Split(p, "/")
+	if len(ac) != len(pc) {
+		return false
+	}
+	for i := range ac {
+		if ok, _ := filepath.Match(ac[i], pc[i]); !ok {
+			return false
+		}
+	}
+	return true
+}
+
+// addWalkEntries: with -R, directory entries that are neither directories nor regular files (FIFO, socket,
+// symbolic links, device node) are put among the files of directories some argument walks - with names that sort
+// before, between and after the generated ones - provided no argument names them (the specification's domain:
+// such entries only as passers-by of a walk; a FIFO at most once)
+func addWalkEntries(rng *rand.Rand, sc *Scenario, dirs []string) {
+	if !sc.Rec || len(dirs) == 0 || rng.Intn(3) == 0 {
+		return
+	}
+	var walked []string
+	for _, a := range sc.Argv {
+		for _, d := range dirs {
+			if string(vh.FromInts(a)) == d {
+				walked = append(walked, d)
+			}
+		}
+	}
+	if len(walked) == 0 {
+		return
+	}
+	used := map[string]bool{}
+	for _, n := range sc.Tree {
+		used[string(vh.FromInts(n.P))] = true
+	}
+	names := []string{"0first", "aa", "b0", "d.mid", "m", "x.m", "zz.last", "~"}
+	kinds := []string{"fifo", "sock", "symfile", "symdir", "dangling", "dev"}
+	for i, n := 0, 1+rng.Intn(3); i < n; i++ {
+		under := walked[rng.Intn(len(walked))]
+		// anywhere below the walked directory
+		var cands []string
+		for _, d := range dirs {
+			if d == under || strings.HasPrefix(d, under+"/") {
+				cands = append(cands, d)
+			}
+		}
+		p := cands[rng.Intn(len(cands))] + "/" + names[rng.Intn(len(names))]
+		kind := kinds[rng.Intn(len(kinds))]
+		if used[p] {
+			continue
+		}
+		hit, covers := false, 0
+		for _, a := range sc.Argv {
+			as := string(vh.FromInts(a))
+			hit = hit || argHits(as, p)
+			for _, d := range dirs {
+				if as == d && strings.HasPrefix(p, d+"/") {
+					covers++
+				}
+			}
+		}
+		if hit || (kind == "fifo" && covers != 1) {
+			continue
+		}
+		used[p] = true
+		if kind == "fifo" {
+			sc.Tree = append(sc.Tree, Node{P: vh.BS(p), K: "file", Data: randData(rng, 3), Tr: "pipe"})
+		} else {
+			sc.Tree = append(sc.Tree, Node{P: vh.BS(p), K: kind, Data: []int{}, Tr: "reg"})
+		}
+	}
 }
 
 // addSpecialInputs: inputs that cannot be rewound and report size 0.  FIFOs live in a reserved directory
@@ -1058,8 +1246,10 @@ func addSpecialInputs(rng *rand.Rand, sc *Scenario, truncLeft *int) {
 		if sc.Gz {
 			switch x := rng.Intn(10); {
 			case x < 4:
-			case x < 7:
+			case x < 6:
 				k = "gz"
+			case x < 7:
+				k = "mgz"
 			case x < 8:
 				k = "crcgz"
 			case x < 9:
@@ -1086,7 +1276,7 @@ func addSpecialInputs(rng *rand.Rand, sc *Scenario, truncLeft *int) {
 		np := 1 + rng.Intn(2)
 		for i := 1; i <= np; i++ {
 			k, d := kindData()
-			sc.Tree = append(sc.Tree, Node{P: vh.BS(fmt.Sprintf("pp/q/r/s/p%d", i)), K: k, Data: d, Tr: "pipe"})
+			sc.Tree = append(sc.Tree, Node{P: vh.BS(fmt.Sprintf("pp/q/r/s/p%d", i)), K: k, Data: d, Tr: "pipe", Mem: cutsFor(rng, k, d)})
 		}
 		switch rng.Intn(3) {
 		case 0:
@@ -1108,7 +1298,7 @@ func addSpecialInputs(rng *rand.Rand, sc *Scenario, truncLeft *int) {
 	}
 	if rng.Intn(8) == 0 {
 		k, d := kindData()
-		n := Node{P: vh.BS([]string{"/dev/stdin", "/dev/fd/3"}[rng.Intn(2)]), K: k, Data: d, Tr: []string{"pipe", "pipe", "reg"}[rng.Intn(3)]}
+		n := Node{P: vh.BS([]string{"/dev/stdin", "/dev/fd/3"}[rng.Intn(2)]), K: k, Data: d, Tr: []string{"pipe", "pipe", "reg"}[rng.Intn(3)], Mem: cutsFor(rng, k, d)}
 		sc.Tree = append(sc.Tree, n)
 		insert(string(vh.FromInts(n.P)))
 		if n.Tr == "reg" && rng.Intn(3) == 0 {
